@@ -11,6 +11,18 @@ REPO = os.environ.get("PYVC_REPO", "/repo")
 NATIVE_PY = "/venv/bin/python"
 
 PLANS = {
+    "C17": {
+        "level": "proof",
+        "sidecars": ["psize"],
+        "extras": [],
+        "explanation": "contracts on the Psize setters, set_smallest (loop invariant + variant), set_all",
+    },
+    "C18": {
+        "level": "proof",
+        "sidecars": ["dxcube"],
+        "extras": [],
+        "explanation": "write_cube against the numeric token stream of the file (z3 sequences, loop invariant)",
+    },
     "C14": {
         "level": "proof",
         "sidecars": ["cells"],
